@@ -243,6 +243,12 @@ def enc(s, v, env=None, bitmode=False):
         return enc_int(v, size, signed, order)
     if k == "bytesint":
         return enc_int(v, s[1], s[2], "little" if s[3] else "big")
+    if k == "bytesintctx":
+        w = env[s[1]]
+        return enc_int(v, int(w % 4) + 1, s[2], "little" if (w // 4) % 2 == 1 else "big")
+    if k == "bitsintctx":
+        w = env[s[1]]
+        return enc(("bitsint", (int(w % 2) + 1) * 8, s[2], (w // 2) % 2 == 1), v, env, bitmode)
     if k == "bitsint":
         w, signed, swapped = s[1], s[2], s[3]
         if not _isint(v):
@@ -591,6 +597,13 @@ def dec(s, buf, pos, env=None, bitmode=False):
     if k == "bytesint":
         items, pos = take(buf, pos, s[1])
         return dec_int(items, s[2], "little" if s[3] else "big"), pos
+    if k == "bytesintctx":
+        w = env[s[1]]
+        items, pos = take(buf, pos, int(w % 4) + 1)
+        return dec_int(items, s[2], "little" if (w // 4) % 2 == 1 else "big"), pos
+    if k == "bitsintctx":
+        w = env[s[1]]
+        return dec(("bitsint", (int(w % 2) + 1) * 8, s[2], (w // 2) % 2 == 1), buf, pos, env, bitmode)
     if k == "bitsint":
         w, signed, swapped = s[1], s[2], s[3]
         bits, pos = take(buf, pos, w)
